@@ -88,11 +88,18 @@ def pick_repeat(w, rng):
     return {"op": name, "in": list(ins)}
 
 
+TRACE_WEIGHT_CAP = {"quick": 500, "thorough": 4000}
+
+
 def pick_call(w, rng, prefer_doc=True):
-    """A call spec for abort/preempt: biased to from_json_data / to_json_data on shared args."""
+    """A call spec for abort/preempt: biased to from_json_data / to_json_data on shared args.
+    Traced calls cost ~10us per line event, so they are placed on objects of bounded size."""
     cands = []
+    cap = TRACE_WEIGHT_CAP.get(w.tier, 500)
     for name in API_OPS:
         for s in w.live(API_INPUT_KIND[name]):
+            if s.meta.get("w", 0) > cap:
+                continue
             wgt = 3 if name in ("from_json_data", "to_json_data") else 1
             cands.append(((name, s.id), wgt))
     if not cands:
